@@ -36,8 +36,8 @@ static int g_argc;
 static struct aws_cli_option *g_table; /* n + 1 entries, last one zeroed */
 static int g_ntable;
 static char *g_optstr;
-/* blocks that earlier inputs lived in: kept until the next RESET so that pointers the library still holds
- * (aws_cli_optarg after "ARGV O") never dangle and never alias a newer block */
+/* blocks that earlier inputs lived in: kept until the execution's process exits so that pointers the library still
+ * holds (aws_cli_optarg after "ARGV O") never dangle and never alias a newer block */
 static void *g_old[8192];
 static int g_nold;
 
